@@ -340,8 +340,17 @@ class Stage:
                 shutil.rmtree(out, ignore_errors=True)
                 os.makedirs(out, exist_ok=True)
                 req.update({"output_dir": out, "package": "p"})
-            g = self.drv.ask(req)
             reasons = pre.get(b, [])
+            if b == "python" and "hugeWidth" in reasons:
+                # the Python generator's work and output are linear in the declared widths (mask literals): for a
+                # field of 2^31 bits it runs 43 s and emits a 1 GB module, beyond that it exhausts memory.  The
+                # generator is not run on such a description (it would take the driver down); recorded finding
+                run.hist("gen", "python:not-run-hugeWidth")
+                run.violation("impl", "python back end: generator work and output linear in a declared width of 2^24 bits or more (not executed)",
+                              {"pdl": text, "stage": "gen", "backend": b,
+                               "signature": {"stage": "gen", "backend": b, "class": "resource", "reason": "hugeWidth"}})
+                continue
+            g = self.drv.ask(req)
             if g is None:
                 self.dead("gen", text, {"backend": b, "signature": {"stage": "gen", "backend": b, "class": "abort", "reasons": reasons}})
                 continue
@@ -469,6 +478,12 @@ def main(argv):
         rp = json.load(open(a.replay)).get("replay", {})
         if rp.get("pdl") is not None:
             st.front(rp["pdl"], "replay", tuple(BACKENDS))
+    # past failures of this check (minimized), first
+    cdir = os.path.join(C.VERIF, "corpus", "c10")
+    if os.path.isdir(cdir):
+        for fn in sorted(os.listdir(cdir)):
+            if fn.endswith(".pdl"):
+                st.front(open(os.path.join(cdir, fn)).read(), "corpus", tuple(BACKENDS))
     # recorded findings: their witnesses are replayed on every run
     for k in run.known:
         w = k.get("witness", {})
